@@ -65,7 +65,10 @@ func Run(outDir string, seed int64, tier string) error {
 		}
 	}
 	// (ii) boundary-directed
-	gB := []int64{0, 1, 1 << 31, 1 << 32}
+	gB := []int64{0, 1 << 32}
+	if tier == "thorough" {
+		gB = []int64{0, 1, 1 << 31, 1 << 32}
+	}
 	for k := uint(1); k <= 32; k++ {
 		for _, dp := range []int64{-2, -1, 0, 1} {
 			p := int64(1)<<k + dp
